@@ -133,7 +133,7 @@ Section Eval.
         Bool.eqb (v_eqb a b) e
         && (match v_hashkey a, v_hashkey b, h with
             | Some ka, Some kb, Some hobs => implb (atoms_eqb ka kb) hobs
-            | None, None, None => true
+            | _, _, None => true
             | _, _, _ => false
             end)
         && Bool.eqb (atoms_eqb (v_token a) (v_token b)) t
